@@ -108,3 +108,30 @@ PROPS["C09"] = {
         "design_ref": "DESIGN.md §4 C09",
     },
 }
+
+PROPS["C01"] = {
+    "level": "model_checking",
+    "kani": [{"package": "boa_engine", "flags": ENGINE_FLAGS, "tags": ["model", "c01a", "c01d", "c01e"]}],
+    "assumptions": COMMON_ASSUME + [
+        "operands are Numbers (Integer32 / Float64); coercion of other types is outside",
+        "Float64 results of int-specialised paths are compared with the syntactically identical IEEE expression on the converted operands; integer results against exact i64 arithmetic",
+    ],
+    "outside_claim": [
+        "the program quantifier of C01 in its entirety: parsing, scope analysis, compilation, control flow, closures/TDZ, generators, classes, destructuring, entry modes",
+        "coercions of non-Number operands (ToPrimitive/ToNumeric need Context), BigInt and String operators",
+        "int32 / and % with BOTH operands symbolic are decided only for panic-freedom; functionally one side is enumerated (DESIGN.md §2.3)",
+        "pow beyond panic-freedom (powi/powf are over-approximated intrinsics in Kani)",
+    ],
+    "trusted_base": ["integer-arithmetic reference model harness/core/engine/src/lib.rs.model.kani.rs", "CBMC's IEEE-754 float theory for the Float64 branches"],
+    "manifest": {
+        "text": "Kernel-level claim only. Bounded model checking of the Number x Number operator kernels the VM and the constant folder "
+                "call (value/operations.rs fast paths, ToInt32/ToUint32, Number::equal/sameValue/sameValueZero/lessThan): for ALL int32 "
+                "pairs and ALL double bit patterns each operator returns what ECMAScript Number::op specifies (exact integer model, "
+                "-0 and overflow side conditions, IEEE relations as integer comparisons of bit patterns) and never panics "
+                "(this is where `-2147483648 % -1` lives). The program-level quantifier of C01 is NOT decided.",
+        "note": "Trusted: Kani/CBMC incl. its float theory, the integer reference model. Outside: everything above the operator kernels "
+                "(parser, compiler, VM control flow, coercions of non-Number operands).",
+        "technique": "bounded model checking of the compiled Rust (Kani/CBMC, SAT) over full int32^2 / double domains vs integer-domain spec model",
+        "design_ref": "DESIGN.md §4 C01",
+    },
+}
